@@ -48,6 +48,7 @@ def relationsHoldPinned (C : Codecs) (pinned : List (String × Expr)) (env : Env
       | some (.b bs), e' => evalEnv env e' == some bs.length
       | _, _ => false) && relationsHoldPinned C pinned env plen pad r
   | pad, .readArr _ f n :: r => (match env.get f with | some (.b bs) => bs.length == n | _ => false) && relationsHoldPinned C pinned env plen pad r
+  | pad, .readArr3 _ f :: r => (match env.get f with | some (.ns xs) => xs.length == 3 | _ => false) && relationsHoldPinned C pinned env plen pad r
   | pad, .readSub _ f typ _ _ _ _ :: r => (match env.get f with | some (.t v) => tupOk C typ v | _ => false) && relationsHoldPinned C pinned env plen pad r
   | pad, .forCountInt _ _ _ f g :: r =>
     (match env.get f with
